@@ -102,6 +102,57 @@ theorem epic_covers_metadata (ts ctr : Nat) (p l : Bytes) (m : PathMeta.Hdr) (bo
       (zeroRaw m body).map fun z => natBE 4 ts ++ natBE 4 ctr ++ p ++ l ++ z :=
   zeroPath_epic ts ctr p l m body hp hl
 
+/-! ### extension headers: where the upper layer starts -/
+
+/-- **Extension headers are not authenticated.**  Take a packet `header ‖ L4` (upper layer of
+protocol `nh`) and the packet obtained by inserting an E2E extension header (for instance the one
+carrying the authenticator option itself) or an HBH extension header in front of the upper layer —
+which changes `NextHdr` and `PayloadLen` of the SCION header: both have the same authenticator
+input.  `upperLayer` (the walk the callers of `ComputeAuthCMAC` perform) finds the same upper
+layer type and bytes behind the extension. -/
+theorem extension_headers_not_authenticated (h : Hdr) (nh el pl spi alg ts : Nat) (body l4 : Bytes)
+    (h1 : nh < 256) (h2 : el < 256) (hl : body.length + 2 = (el + 1) * 4)
+    (hn : nh ≠ 200 ∧ nh ≠ 201) (cls : Nat) (hc : cls = 200 ∨ cls = 201) :
+    ∃ a b, packetAuthIn (withNext h nh l4.length) l4 spi alg ts = some a ∧
+      packetAuthIn (withNext h cls pl) (UInt8.ofNat nh :: UInt8.ofNat el :: (body ++ l4)) spi alg ts = some b ∧
+      macInput a = macInput b := by
+  have e1 : upperLayer nh l4 = some (nh, l4) := upperLayer_plain nh l4 hn
+  have e2 : upperLayer cls (UInt8.ofNat nh :: UInt8.ofNat el :: (body ++ l4)) = some (nh, l4) := by
+    rcases hc with rfl | rfl
+    · exact upperLayer_wrap_hbh nh el body l4 h1 h2 hl hn
+    · exact upperLayer_wrap_e2e nh el body l4 h1 h2 hl hn
+  refine ⟨⟨withNext h nh l4.length, spi, alg, ts, nh, l4⟩, ⟨withNext h cls pl, spi, alg, ts, nh, l4⟩, ?_, ?_, ?_⟩
+  · simp only [packetAuthIn, withNext, e1]
+  · simp only [packetAuthIn, withNext, e2]
+  · rw [macInput_withNext, macInput_withNext]
+
+/-! ### the timestamp / sequence number (replay protection) -/
+
+/-- **Replay-relevant field.**  Two inputs that differ in the option's timestamp / sequence
+number — whatever else they share or not — have different authenticator inputs (so, for every
+MAC that is injective on its input, different tags): a captured packet cannot be replayed under a
+new timestamp/sequence number without recomputing the MAC. -/
+theorem timestamp_change_changes_input (a b : AuthIn) (ha : a.WF) (hb : b.WF) (hc : SameClass a b)
+    (hts : a.ts ≠ b.ts) : macInput a ≠ macInput b := by
+  intro h
+  have := (macInput_eq_iff a b ha hb hc).mp h
+  exact hts this.2.2.2.2.2.2.2.2.2.2.2.2.2
+
+theorem timestamp_change_changes_tag (mac : Bytes → Bytes) (hinj : ∀ x y, mac x = mac y → x = y)
+    (a b : AuthIn) (da db : Bytes) (ha : a.WF) (hb : b.WF) (hc : SameClass a b) (hts : a.ts ≠ b.ts)
+    (ea : macInput a = .ok da) (eb : macInput b = .ok db) : mac da ≠ mac db := by
+  apply tag_changes_of_input_ne mac hinj
+  intro e
+  apply timestamp_change_changes_input a b ha hb hc hts
+  rw [ea, eb, e]
+
+/-- the same for the algorithm identifier -/
+theorem algorithm_change_changes_input (a b : AuthIn) (ha : a.WF) (hb : b.WF) (hc : SameClass a b)
+    (hal : a.alg ≠ b.alg) : macInput a ≠ macInput b := by
+  intro h
+  have := (macInput_eq_iff a b ha hb hc).mp h
+  exact hal this.2.2.2.2.2.2.2.2.2.2.2.2.1
+
 /-! ### the traffic-class clause fails (known finding `C21/tc-mask-0x3f`) -/
 
 def exHdr (tc : Nat) : Hdr :=
